@@ -3,7 +3,10 @@
    induction on the interpreter's fuel, up to the order in which footprints are recorded (XFrontPreserve.st_eq).
    The transformed program gets four times the fuel (the rewrites ~= -> ~(=), >= -> ~(<) ... nest one level deeper).
    Parts: footprints as sets and states up to footprint order; the interpreter's primitives respect that equivalence;
-   the stack keeps its shape (shape_all); call-free expressions only add reads to the footprint (pure_all); a node
+   the stack keeps its shape (shape_all); call-free expressions only add reads to the footprint (pure_all); whatever
+   an expression or statement does, the globals it leaves changed are in the write footprint it recorded (wsound_all);
+   a call-free expression gives the same value and the same footprint from two states that agree on what it reads
+   (rsound_all) -- together these move a call-free right operand of `>` / `<=` in front of a left operand with calls; a node
    annotated constant evaluates to that constant (const_eval); the step lemmas SE_step / SEs_step / SX_step / SXs_step /
    SWAP_step and their fuel induction sim_all.  Exclusions: XFrontPreserve.swap_safe. *)
 From Coq Require Import ZArith String List Bool Lia FMapPositive.
@@ -1690,6 +1693,449 @@ Proof.
     + exact X.
 Qed.
 
+(* ------------------------------------------------------------------ writes are recorded: wsound_all *)
+(* ------------------------------------------------------------------ footprints are sound for writes: what an evaluation does not
+   record as written keeps its value; the sets of global names never change; an expression leaves the stack as it was *)
+Definition KW (s s' : state) : Prop :=
+  map fst (gvars s') = map fst (gvars s) /\ map fst (garrs s') = map fst (garrs s) /\
+  (forall x, mem_str x (e_wr (cur s')) = false -> assoc x (gvars s') = assoc x (gvars s) /\ assoc x (garrs s') = assoc x (garrs s)) /\
+  (forall x, mem_str x (e_wr (cur s)) = true -> mem_str x (e_wr (cur s')) = true).
+Definition QE {A : Type} (r : res A) (s : state) : Prop := match r with Ret _ s' => stk s' = stk s /\ KW s s' | _ => True end.
+Definition QX {A : Type} (r : res A) (s : state) : Prop := match r with Ret _ s' => tl (stk s') = tl (stk s) /\ KW s s' | _ => True end.
+
+Lemma KW_refl s : KW s s. Proof. repeat split; auto. Qed.
+Lemma KW_trans s s1 s2 : KW s s1 -> KW s1 s2 -> KW s s2.
+Proof.
+  intros (A1 & B1 & C1 & D1) (A2 & B2 & C2 & D2). split; [congruence|]. split; [congruence|]. split.
+  - intros x Hx. assert (Hx1 : mem_str x (e_wr (cur s1)) = false).
+    { destruct (mem_str x (e_wr (cur s1))) eqn:E; [|reflexivity]. rewrite (D2 x E) in Hx. discriminate. }
+    destruct (C2 x Hx) as [P1 P2]. destruct (C1 x Hx1) as [P3 P4]. split; congruence.
+  - intros x Hx. apply D2. apply D1. exact Hx.
+Qed.
+Lemma QE_QX {A} (r : res A) s : QE r s -> QX r s.
+Proof. destruct r; cbn; auto. intros [H K]. split; [rewrite H; reflexivity|exact K]. Qed.
+
+Lemma QE_bind {A B} (r : res A) (k : A -> state -> res B) s :
+  QE r s -> (forall a s1, QE (k a s1) s1) -> QE (bind r k) s.
+Proof.
+  intros H1 H2. destruct r as [a s1| |]; cbn in *; try exact I. specialize (H2 a s1). unfold QE in *.
+  destruct (k a s1); try exact I. destruct H1 as [E1 K1], H2 as [E2 K2]. split; [congruence|eapply KW_trans; eauto].
+Qed.
+Lemma QX_bindE {A B} (r : res A) (k : A -> state -> res B) s :
+  QE r s -> (forall a s1, QX (k a s1) s1) -> QX (bind r k) s.
+Proof.
+  intros H1 H2. destruct r as [a s1| |]; cbn in *; try exact I. specialize (H2 a s1). unfold QX in *.
+  destruct (k a s1); try exact I. destruct H1 as [E1 K1], H2 as [E2 K2]. split; [congruence|eapply KW_trans; eauto].
+Qed.
+Lemma QX_bind {A B} (r : res A) (k : A -> state -> res B) s :
+  QX r s -> (forall a s1, QX (k a s1) s1) -> QX (bind r k) s.
+Proof.
+  intros H1 H2. destruct r as [a s1| |]; cbn in *; try exact I. specialize (H2 a s1). unfold QX in *.
+  destruct (k a s1); try exact I. destruct H1 as [E1 K1], H2 as [E2 K2]. split; [congruence|eapply KW_trans; eauto].
+Qed.
+Lemma QE_int_of {B} v (k : Z -> res B) s : (forall n, QE (k n) s) -> QE (int_of v k) s.
+Proof. intros H. destruct v; cbn; try exact I. apply H. Qed.
+Lemma QE_bool_of {B} v (k : bool -> res B) s : (forall b, QE (k b) s) -> QE (bool_of v k) s.
+Proof. intros H. unfold bool_of. apply QE_int_of. intros n. destruct (n =? 0); [apply H|]. destruct (n =? 1); [apply H|exact I]. Qed.
+Lemma QX_int_of {B} v (k : Z -> res B) s : (forall n, QX (k n) s) -> QX (int_of v k) s.
+Proof. intros H. destruct v; cbn; try exact I. apply H. Qed.
+Lemma QX_bool_of {B} v (k : bool -> res B) s : (forall b, QX (k b) s) -> QX (bool_of v k) s.
+Proof. intros H. unfold bool_of. apply QX_int_of. intros n. destruct (n =? 0); [apply H|]. destruct (n =? 1); [apply H|exact I]. Qed.
+Lemma QE_ret {A} (a : A) s : QE (Ret a s) s. Proof. split; [reflexivity|apply KW_refl]. Qed.
+Lemma QX_ret {A} (a : A) s : QX (Ret a s) s. Proof. split; [reflexivity|apply KW_refl]. Qed.
+
+Lemma KW_cur s c : (forall x, mem_str x (e_wr (cur s)) = true -> mem_str x (e_wr c) = true) -> KW s (set_cur s c).
+Proof. intros H. destruct s; cbn in *. repeat split; auto. Qed.
+Lemma QE_note_rd {A} (a : A) x s : QE (Ret a (note_rd x s)) s.
+Proof. split; [destruct s; reflexivity|]. destruct s; cbn. repeat split; auto. Qed.
+
+Lemma QE_with_eff {A} (m : state -> res A) s : QE (m (set_cur s eff0)) (set_cur s eff0) -> QE (with_eff m s) s.
+Proof.
+  intros H. unfold with_eff. destruct (m (set_cur s eff0)) as [a s'|c s'|u]; cbn in *; try exact I.
+  destruct H as [E (A1 & B1 & C1 & D1)]. split; [destruct s, s'; cbn in *; exact E|].
+  destruct s, s'; cbn in *. split; [exact A1|]. split; [exact B1|]. split.
+  - intros x Hx. cbn in Hx. rewrite mem_union in Hx. apply orb_false_iff in Hx. apply C1. apply Hx.
+  - intros x Hx. cbn in Hx |- *. rewrite mem_union, Hx. reflexivity.
+Qed.
+Lemma QX_tick {B} s (k : state -> res B) : (forall s0, stk s0 = stk s -> KW s s0 -> QX (k s0) s0) -> QX (tick s k) s.
+Proof.
+  intros H. unfold tick. destruct (budget s <=? 0); [exact I|].
+  assert (K : KW s (set_budget s (budget s - 1))) by (destruct s; cbn; repeat split; auto).
+  specialize (H (set_budget s (budget s - 1)) ltac:(destruct s; reflexivity) K). unfold QX in *. destruct (k _); try exact I.
+  destruct H as [E K2]. split; [rewrite E; destruct s; reflexivity|eapply KW_trans; eauto].
+Qed.
+Lemma QE_tick {B} s (k : state -> res B) : (forall s0, stk s0 = stk s -> KW s s0 -> QE (k s0) s0) -> QE (tick s k) s.
+Proof.
+  intros H. unfold tick. destruct (budget s <=? 0); [exact I|].
+  assert (K : KW s (set_budget s (budget s - 1))) by (destruct s; cbn; repeat split; auto).
+  specialize (H (set_budget s (budget s - 1)) ltac:(destruct s; reflexivity) K). unfold QE in *. destruct (k _); try exact I.
+  destruct H as [E K2]. split; [rewrite E; destruct s; reflexivity|eapply KW_trans; eauto].
+Qed.
+
+Lemma QE_read_var ge x s : QE (read_var ge x s) s.
+Proof.
+  unfold read_var. destruct (assoc x (f_vars (top s))) as [[| | |]|]; try exact I; try apply QE_ret.
+  destruct (assoc x (f_vals (top s))); [apply QE_ret|]. destruct (assoc x (g_vals ge)); [apply QE_ret|].
+  destruct (assoc x (gvars s)) as [[| | |]|]; try exact I; try apply QE_note_rd. destruct (assoc x (garrs s)); [apply QE_ret|exact I].
+Qed.
+Lemma QE_resolve_array ge a s : QE (resolve_array ge a s) s.
+Proof.
+  unfold resolve_array. destruct (assoc a (f_vars (top s))) as [[| | |]|]; try exact I; try apply QE_ret.
+  destruct (assoc a (f_vals (top s))); [exact I|]. destruct (assoc a (garrs s)); [apply QE_ret|exact I].
+Qed.
+Lemma QE_read_elem av a i s : QE (read_elem av a i s) s.
+Proof.
+  unfold read_elem. destruct av; try exact I.
+  - destruct (assoc a0 (garrs s)); [|exact I]. destruct ((0 <=? i) && (i <? alen a1)); [|exact I].
+    destruct (PositiveMap.find (cell i) (acells a1)) as [[| | |]|]; try exact I. apply QE_note_rd.
+  - destruct ((0 <=? i) && (i <? Z.of_nat (Datatypes.length ws))); [apply QE_ret|exact I].
+Qed.
+
+Lemma update_keys2 {A} x (v : A) l : map fst (update x v l) = map fst l.
+Proof. induction l as [|[y w] r IH]; [reflexivity|]. cbn [update]. destruct (String.eqb x y); cbn; [reflexivity|rewrite IH; reflexivity]. Qed.
+Lemma assoc_update_other {A} x y (v : A) l : x <> y -> assoc x (update y v l) = assoc x l.
+Proof.
+  intros H. induction l as [|[z w] r IH]; [reflexivity|]. cbn [update]. destruct (String.eqb_spec y z).
+  - subst. cbn [assoc]. destruct (String.eqb_spec x z); [congruence|reflexivity].
+  - cbn [assoc]. destruct (String.eqb x z); [reflexivity|exact IH].
+Qed.
+Lemma mem_add_self x l : mem_str x (add_str x l) = true.
+Proof. rewrite mem_add, String.eqb_refl. reflexivity. Qed.
+
+Lemma KW_write_gvar s x v : KW s (note_wr x (set_gvars s (update x v (gvars s)))) .
+Proof.
+  destruct s; cbn. split; [apply update_keys2|]. split; [reflexivity|]. split.
+  - intros y Hy. cbn in Hy. rewrite mem_add in Hy. apply orb_false_iff in Hy. destruct Hy as [Hy _]. apply String.eqb_neq in Hy.
+    split; [apply assoc_update_other; exact Hy|reflexivity].
+  - intros y Hy. cbn in Hy |- *. rewrite mem_add, Hy. apply orb_true_r.
+Qed.
+Lemma KW_write_garr s x v : KW s (note_wr x (set_garrs s (update x v (garrs s)))).
+Proof.
+  destruct s; cbn. split; [reflexivity|]. split; [apply update_keys2|]. split.
+  - intros y Hy. cbn in Hy. rewrite mem_add in Hy. apply orb_false_iff in Hy. destruct Hy as [Hy _]. apply String.eqb_neq in Hy.
+    split; [reflexivity|apply assoc_update_other; exact Hy].
+  - intros y Hy. cbn in Hy |- *. rewrite mem_add, Hy. apply orb_true_r.
+Qed.
+
+Lemma QE_write_elem av a i n s : QE (write_elem av a i n s) s.
+Proof.
+  unfold write_elem. destruct av; try exact I. destruct (assoc a0 (garrs s)); [|exact I].
+  destruct ((0 <=? i) && (i <? alen a1)); [|exact I]. split; [destruct s; reflexivity|apply KW_write_garr].
+Qed.
+Lemma QX_assign ge x n s : QX (assign ge x n s) s.
+Proof.
+  unfold assign. destruct (stk s) as [|fr rest] eqn:Es; [exact I|].
+  destruct (assoc x (f_vars fr)) as [[| | |]|]; try exact I.
+  - split; [destruct s; cbn in *; rewrite Es; reflexivity|destruct s; cbn; repeat split; auto].
+  - split; [destruct s; cbn in *; rewrite Es; reflexivity|destruct s; cbn; repeat split; auto].
+  - destruct (assoc x (f_vals fr)); [exact I|]. destruct (assoc x (g_vals ge)); [exact I|].
+    destruct (assoc x (gvars s)); [|exact I]. split; [destruct s; reflexivity|apply KW_write_gvar].
+Qed.
+Lemma QE_do_sys n vs b s : QE (do_sys n vs b s) s.
+Proof.
+  unfold do_sys. destruct n as [|p|p]; [| |exact I].
+  - destruct vs; [exact I|]. apply QE_int_of. intros; exact I.
+  - destruct p as [p|p|]; [exact I| |].
+    + destruct p as [p|p|]; [exact I|exact I|]. destruct vs; [exact I|]. apply QE_int_of. intros n.
+      destruct (n <? 256); [|exact I]. destruct (input s); (split; [destruct s; reflexivity|destruct s; cbn; repeat split; auto]).
+    + destruct vs as [|b0 [|st ?]]; try exact I. apply QE_int_of. intros bz. apply QE_int_of. intros sz. destruct b; [exact I|].
+      split; [destruct s; reflexivity|destruct s; cbn; repeat split; auto].
+Qed.
+
+Section Bodies.
+  Variables (ge : genv)
+            (ev : expr -> state -> res value)
+            (evs : list expr -> state -> res (list (value * eff)))
+            (ex : stmt -> state -> res flow)
+            (exs : list stmt -> state -> res flow).
+  Hypothesis Hev : forall e s, QE (ev e s) s.
+  Hypothesis Hevs : forall es s, QE (evs es s) s.
+  Hypothesis Hex : forall st s, QX (ex st s) s.
+  Hypothesis Hexs : forall ss s, QX (exs ss s) s.
+
+  Lemma QE_evals_body es s : QE (evals_body ev evs es s) s.
+  Proof.
+    destruct es as [|e r]; [apply QE_ret|]. unfold evals_body.
+    assert (H := QE_with_eff (ev e) s (Hev e _)).
+    destruct (with_eff (ev e) s) as [ve s1|c s1|u]; cbn [rcase] in *; try exact I.
+    - specialize (Hevs r s1). destruct (evs r s1) as [l s2|c s2|u]; cbn [rcase] in *; try exact I.
+      + destruct H as [E1 K1], Hevs as [E2 K2]. split; [congruence|eapply KW_trans; eauto].
+      + destruct (e_io (snd ve)); exact I.
+    - destruct (forallb harmless r); exact I.
+  Qed.
+  Lemma QE_operands es s : QE (operands evs es s) s.
+  Proof. unfold operands. apply QE_bind; [apply Hevs|]. intros l s1. destruct (conflicts (map snd l)); [exact I|apply QE_ret]. Qed.
+
+  Lemma QE_invoke w f vs s : QE (invoke ex ge w f vs s) s.
+  Proof.
+    unfold invoke. destruct (find_proc f (g_procs ge)) as [p|]; [|exact I].
+    destruct (negb (Bool.eqb (is_func p) w)); [exact I|]. destruct (enter ge p vs s) as [u|fr]; [exact I|].
+    apply QE_tick. intros s0 Hstk0 K0.
+    specialize (Hex (body p) (set_stk s0 (fr :: stk s0))).
+    destruct (ex (body p) (set_stk s0 (fr :: stk s0))) as [fl s2|c s2|u]; cbn [bind rcase]; try exact I.
+    destruct Hex as [Etl K2].
+    assert (Hpop : QE (Ret tt (pop s2)) s0).
+    { split.
+      - unfold pop. destruct s2, s0; cbn in *. destruct stk; cbn in *; exact Etl.
+      - destruct K2 as (A & B & C & D). unfold pop. destruct s2, s0; cbn in *. repeat split; auto; apply C; assumption. }
+    destruct fl; destruct w; try exact I; try exact Hpop. destruct v; try exact I. exact Hpop.
+  Qed.
+
+  Ltac qe :=
+    repeat first
+      [ exact I | apply QE_ret
+      | apply Hev | apply Hevs
+      | apply QE_read_var | apply QE_resolve_array | apply QE_read_elem | apply QE_write_elem | apply QE_do_sys
+      | apply QE_operands | apply QE_invoke
+      | apply QE_bind; [ | intros ]
+      | apply QE_int_of; intros
+      | apply QE_bool_of; intros
+      | match goal with
+        | |- QE (match ?x with _ => _ end) _ => destruct x
+        | |- QE (if ?x then _ else _) _ => destruct x
+        end ].
+  Lemma QE_eval_body e s : QE (eval_body ev evs ex ge e s) s.
+  Proof. destruct e as [n|b|bs|x|a i|f args|n args|o a|o l r]; cbn [eval_body]; solve [qe]. Qed.
+
+  Ltac qx :=
+    repeat first
+      [ exact I | apply QX_ret
+      | apply Hex | apply Hexs | apply QX_assign
+      | apply QE_QX; apply QE_write_elem
+      | apply QX_bind; [ apply Hex | intros ]
+      | apply QX_bindE; [ first [apply Hev | apply QE_resolve_array | apply QE_operands | apply QE_do_sys | apply QE_invoke] | intros ]
+      | apply QX_int_of; intros
+      | apply QX_bool_of; intros
+      | match goal with
+        | |- QX (match ?x with _ => _ end) _ => destruct x
+        | |- QX (if ?x then _ else _) _ => destruct x
+        end ].
+  Lemma QX_exec_body st s : QX (exec_body ev evs ex exs ge st s) s.
+  Proof. unfold exec_body. apply QX_tick. intros s0 _ _. destruct st; solve [qx]. Qed.
+  Lemma QX_execs_body ss s : QX (execs_body ex exs ss s) s.
+  Proof. destruct ss as [|st r]; cbn [execs_body]; qx. Qed.
+End Bodies.
+
+Lemma wsound_all ge : forall f,
+  (forall e s, QE (eval f ge e s) s) /\ (forall es s, QE (evals f ge es s) s) /\
+  (forall st s, QX (exec f ge st s) s) /\ (forall ss s, QX (execs f ge ss s) s).
+Proof.
+  induction f as [|f (H1 & H2 & H3 & H4)]; [repeat split; intros; exact I|].
+  repeat split; intros.
+  - apply (QE_eval_body ge (eval f ge) (evals f ge) (exec f ge) H1 H2 H3).
+  - apply (QE_evals_body (eval f ge) (evals f ge) H1 H2).
+  - apply (QX_exec_body ge (eval f ge) (evals f ge) (exec f ge) (execs f ge) H1 H2 H3 H4).
+  - apply (QX_execs_body (exec f ge) (execs f ge) H3 H4).
+Qed.
+
+(* ------------------------------------------------------------------ call-free expressions depend only on what they read: rsound_all *)
+(* ------------------------------------------------------------------ footprints are sound for reads: a call-free expression has the
+   same value, and records the same footprint, in any state that agrees on the current frame, on the sets of global
+   names and on the globals it records as read *)
+Definition AG (R : list string) (s t : state) : Prop :=
+  top s = top t /\ map fst (gvars s) = map fst (gvars t) /\ map fst (garrs s) = map fst (garrs t) /\
+  forall x, mem_str x R = true -> assoc x (gvars s) = assoc x (gvars t) /\ assoc x (garrs s) = assoc x (garrs t).
+Definition sim0 (s t : state) : Prop := set_cur s eff0 = set_cur t eff0.
+Definition RD3 {A : Type} (r : res A) (s : state) (r' : res A) (t : state) : Prop :=
+  match r with
+  | Ret a s' =>
+      sim0 s' s /\ (forall x, mem_str x (e_rd (cur s)) = true -> mem_str x (e_rd (cur s')) = true) /\
+      (AG (e_rd (cur s')) s t -> cur t = cur s -> exists t', r' = Ret a t' /\ cur t' = cur s' /\ sim0 t' t)
+  | _ => True
+  end.
+
+Lemma AG_transfer R s t s1 t1 : sim0 s1 s -> sim0 t1 t -> AG R s t -> AG R s1 t1.
+Proof.
+  unfold sim0, AG. intros H1 H2. destruct s, t, s1, t1; cbn in *. inversion H1; inversion H2; subst. auto.
+Qed.
+Lemma AG_mono R R' s t : (forall x, mem_str x R = true -> mem_str x R' = true) -> AG R' s t -> AG R s t.
+Proof. intros H (A & B & C & D). repeat split; auto; apply D; apply H; assumption. Qed.
+Lemma sim0_refl s : sim0 s s. Proof. reflexivity. Qed.
+Lemma sim0_trans a b c : sim0 a b -> sim0 b c -> sim0 a c. Proof. unfold sim0; congruence. Qed.
+
+Lemma RD3_ret {A} (a : A) s t : RD3 (Ret a s) s (Ret a t) t.
+Proof. split; [reflexivity|]. split; [auto|]. intros _ Hc. exists t. auto using sim0_refl. Qed.
+Lemma RD3_fail {A} u s (r' : res A) t : RD3 (Fail u) s r' t. Proof. exact I. Qed.
+
+Lemma RD3_bind {A B} (r r' : res A) (k : A -> state -> res B) s t :
+  RD3 r s r' t -> (forall a s1 t1, RD3 (k a s1) s1 (k a t1) t1) -> RD3 (bind r k) s (bind r' k) t.
+Proof.
+  intros H1 H2. destruct r as [a s1|c s1|u]; cbn [bind rcase]; try exact I.
+  destruct H1 as (S1 & M1 & I1). unfold RD3.
+  destruct (k a s1) as [b s2|c s2|u] eqn:Ek; try exact I.
+  assert (Hk := fun t1 => H2 a s1 t1). 
+  pose proof (Hk s1) as Hself. rewrite Ek in Hself. destruct Hself as (S2 & M2 & _).
+  split; [eapply sim0_trans; eauto|]. split; [intros x Hx; apply M2; apply M1; exact Hx|].
+  intros Hag Hc.
+  destruct (I1 (AG_mono _ _ s t M2 Hag) Hc) as (t1 & Er' & Hc1 & St1). subst r'. cbn [bind rcase].
+  specialize (Hk t1). rewrite Ek in Hk. destruct Hk as (_ & _ & I2).
+  destruct (I2 (AG_transfer _ s t s1 t1 S1 St1 Hag) Hc1) as (t2 & E2 & Hc2 & St2).
+  exists t2. split; [exact E2|]. split; [exact Hc2|eapply sim0_trans; eauto].
+Qed.
+Lemma RD3_int_of {B} v (k : Z -> res B) (k' : Z -> res B) s t : (forall n, RD3 (k n) s (k' n) t) -> RD3 (int_of v k) s (int_of v k') t.
+Proof. intros H. destruct v; cbn; try exact I. apply H. Qed.
+Lemma RD3_bool_of {B} v (k k' : bool -> res B) s t : (forall b, RD3 (k b) s (k' b) t) -> RD3 (bool_of v k) s (bool_of v k') t.
+Proof. intros H. unfold bool_of. apply RD3_int_of. intros n. destruct (n =? 0); [apply H|]. destruct (n =? 1); [apply H|exact I]. Qed.
+
+Lemma assoc_none_keys0 {A} x (l : list (string * A)) : assoc x l = None <-> ~ In x (map fst l).
+Proof.
+  induction l as [|[y v] r IH]; cbn [assoc map fst In]; [tauto|].
+  destruct (String.eqb_spec x y); [split; [discriminate|intros H; exfalso; apply H; left; congruence]|].
+  rewrite IH. split; [intros H [E|E]; [congruence|exact (H E)]|tauto].
+Qed.
+Lemma keys_none {A B} x (l : list (string * A)) (l' : list (string * B)) : map fst l = map fst l' -> assoc x l = None -> assoc x l' = None.
+Proof. intros H H0. apply assoc_none_keys0. rewrite <- H. apply assoc_none_keys0. exact H0. Qed.
+Lemma keys_some {A B} x (l : list (string * A)) (l' : list (string * B)) v : map fst l = map fst l' -> assoc x l = Some v -> exists v', assoc x l' = Some v'.
+Proof.
+  intros H H0. destruct (assoc x l') eqn:E; [eauto|]. exfalso.
+  pose proof (keys_none x l' l (eq_sym H) E). congruence.
+Qed.
+
+Lemma RD3_note_rd {A} (a : A) x s t :
+  RD3 (Ret a (note_rd x s)) s (Ret a (note_rd x t)) t.
+Proof.
+  split; [destruct s; reflexivity|]. split; [intros y Hy; destruct s; cbn in *; rewrite mem_add, Hy; apply orb_true_r|].
+  intros _ Hc. exists (note_rd x t). split; [reflexivity|]. split; [destruct s, t; cbn in *; subst; reflexivity|destruct t; reflexivity].
+Qed.
+
+Ltac rd_same_state Hc t := split; [reflexivity|]; split; [auto|]; intros (Ht & Hk1 & Hk2 & Hv) Hc; exists t; split; [|split; [exact Hc|reflexivity]].
+
+Lemma RD3_read_var ge x s t : RD3 (read_var ge x s) s (read_var ge x t) t.
+Proof.
+  unfold read_var.
+  destruct (assoc x (f_vars (top s))) as [[| | |]|] eqn:E1; try exact I;
+    try (rd_same_state Hc t; rewrite <- Ht, E1; reflexivity).
+  destruct (assoc x (f_vals (top s))) eqn:E2; [rd_same_state Hc t; rewrite <- Ht, E1, E2; reflexivity|].
+  destruct (assoc x (g_vals ge)) eqn:E3; [rd_same_state Hc t; rewrite <- Ht, E1, E2, ?E3; reflexivity|].
+  destruct (assoc x (gvars s)) as [v|] eqn:E4.
+  - destruct v; try exact I;
+      (split; [destruct s; reflexivity|]; split; [intros y Hy; destruct s; cbn in *; rewrite mem_add, Hy; apply orb_true_r|];
+       intros (Ht & Hk1 & Hk2 & Hv) Hc; eexists (note_rd x t);
+       assert (Hx : mem_str x (e_rd (cur (note_rd x s))) = true) by (destruct s; cbn; apply mem_add_self);
+       destruct (Hv x Hx) as [Hg _]; rewrite <- Ht, E1, E2, ?E3, <- Hg, E4;
+       split; [reflexivity|split; [destruct s, t; cbn in *; subst; reflexivity|destruct t; reflexivity]]).
+  - destruct (assoc x (garrs s)) eqn:E5; [|exact I]. rd_same_state Hc t.
+    rewrite <- Ht, E1, E2, ?E3, (keys_none x _ _ Hk1 E4). destruct (keys_some x _ _ _ Hk2 E5) as [v' Ev']. rewrite Ev'. reflexivity.
+Qed.
+
+Lemma RD3_resolve_array ge a s t : RD3 (resolve_array ge a s) s (resolve_array ge a t) t.
+Proof.
+  unfold resolve_array.
+  destruct (assoc a (f_vars (top s))) as [[| | |]|] eqn:E1; try exact I; try (rd_same_state Hc t; rewrite <- Ht, E1; reflexivity).
+  destruct (assoc a (f_vals (top s))) eqn:E2; [exact I|].
+  destruct (assoc a (garrs s)) eqn:E5; [|exact I]. rd_same_state Hc t.
+  rewrite <- Ht, E1, E2. destruct (keys_some a _ _ _ Hk2 E5) as [v' Ev']. rewrite Ev'. reflexivity.
+Qed.
+
+Lemma RD3_read_elem av a i s t : RD3 (read_elem av a i s) s (read_elem av a i t) t.
+Proof.
+  unfold read_elem. destruct av; try exact I.
+  - destruct (assoc a0 (garrs s)) as [ar|] eqn:E1; [|exact I].
+    destruct ((0 <=? i) && (i <? alen ar)) eqn:E2; [|exact I].
+    destruct (PositiveMap.find (cell i) (acells ar)) as [[| | |]|] eqn:E3; try exact I.
+    split; [destruct s; reflexivity|]. split; [intros y Hy; destruct s; cbn in *; rewrite mem_add, Hy; apply orb_true_r|].
+    intros (Ht & Hk1 & Hk2 & Hv) Hc. exists (note_rd a0 t).
+    assert (Hx : mem_str a0 (e_rd (cur (note_rd a0 s))) = true) by (destruct s; cbn; apply mem_add_self).
+    destruct (Hv a0 Hx) as [_ Hg]. rewrite <- Hg, E1, E2, E3.
+    split; [reflexivity|split; [destruct s, t; cbn in *; subst; reflexivity|destruct t; reflexivity]].
+  - destruct ((0 <=? i) && (i <? Z.of_nat (Datatypes.length ws))); [|exact I]. rd_same_state Hc t. reflexivity.
+Qed.
+
+Lemma AG_set_cur R s t c c' : AG R s t -> AG R (set_cur s c) (set_cur t c').
+Proof. intros H. eapply AG_transfer; [| |exact H]; unfold sim0; apply same_set_cur. Qed.
+
+Lemma RD3_with_eff {A} (m : state -> res A) s t :
+  RD3 (m (set_cur s eff0)) (set_cur s eff0) (m (set_cur t eff0)) (set_cur t eff0) ->
+  RD3 (with_eff m s) s (with_eff m t) t.
+Proof.
+  intros H. unfold with_eff. destruct (m (set_cur s eff0)) as [a s'|c s'|u]; cbn [rcase]; try exact I.
+  destruct H as (S1 & M1 & I1). unfold RD3.
+  assert (CS : forall x k, cur (set_cur x k) = k) by (intros x k; destruct x; reflexivity).
+  split; [unfold sim0 in *; rewrite same_set_cur, S1; apply same_set_cur|].
+  split; [intros x Hx; rewrite CS; cbn; rewrite mem_union, Hx; reflexivity|].
+  intros Hag Hc. rewrite CS in Hag.
+  destruct I1 as (t' & Et & Hc' & St').
+  - apply AG_set_cur. eapply AG_mono; [|exact Hag]. intros x Hx. cbn. rewrite mem_union, Hx. apply orb_true_r.
+  - rewrite !CS. reflexivity.
+  - rewrite Et. cbn [rcase]. rewrite Hc'. eexists. split; [reflexivity|]. split; [rewrite !CS, Hc; reflexivity|].
+    unfold sim0 in *. rewrite same_set_cur, St'. apply same_set_cur.
+Qed.
+
+Section Bodies.
+  Variables (ge : genv)
+            (ev : expr -> state -> res value)
+            (evs : list expr -> state -> res (list (value * eff)))
+            (ex : stmt -> state -> res flow).
+  Hypothesis Hev : forall e s t, call_free e = true -> RD3 (ev e s) s (ev e t) t.
+  Hypothesis Hevs : forall es s t, forallb call_free es = true -> RD3 (evs es s) s (evs es t) t.
+  Hypothesis Pev : forall e s, call_free e = true -> PU (ev e s) s.
+
+  Lemma RD3_evals_body es s t : forallb call_free es = true -> RD3 (evals_body ev evs es s) s (evals_body ev evs es t) t.
+  Proof.
+    destruct es as [|e r]; [intros _; apply RD3_ret|]. cbn [forallb]. intros H. apply andb_true_iff in H. destruct H as [He Hr].
+    unfold evals_body.
+    pose proof (RD3_with_eff (ev e) s t (Hev e _ _ He)) as Hw.
+    pose proof (PU_with_eff (ev e) s (Pev e _ He)) as Pw.
+    destruct (with_eff (ev e) s) as [ve s1|c s1|u] eqn:Ew; cbn [rcase]; try exact I; [|contradiction].
+    destruct Hw as (S1 & M1 & I1). unfold RD3.
+    destruct (evs r s1) as [l s2|c s2|u] eqn:Er; cbn [rcase]; try exact I.
+    - pose proof (Hevs r s1 s1 Hr) as Hself. rewrite Er in Hself. destruct Hself as (S2 & M2 & _).
+      split; [eapply sim0_trans; eauto|]. split; [intros x Hx; apply M2; apply M1; exact Hx|].
+      intros Hag Hc. destruct (I1 (AG_mono _ _ s t M2 Hag) Hc) as (t1 & Et & Hc1 & St1). rewrite Et. cbn [rcase].
+      pose proof (Hevs r s1 t1 Hr) as H2. rewrite Er in H2. destruct H2 as (_ & _ & I2).
+      destruct (I2 (AG_transfer _ s t s1 t1 S1 St1 Hag) Hc1) as (t2 & E2 & Hc2 & St2). rewrite E2. cbn [rcase].
+      exists t2. split; [reflexivity|]. split; [exact Hc2|eapply sim0_trans; eauto].
+    - destruct (e_io (snd ve)); exact I.
+  Qed.
+  Lemma RD3_operands es s t : forallb call_free es = true -> RD3 (operands evs es s) s (operands evs es t) t.
+  Proof.
+    intros H. unfold operands. apply RD3_bind; [apply Hevs; exact H|]. intros l s1 t1.
+    destruct (conflicts (map snd l)); [exact I|apply RD3_ret].
+  Qed.
+
+  Lemma RD3_eval_body e s t : call_free e = true -> RD3 (eval_body ev evs ex ge e s) s (eval_body ev evs ex ge e t) t.
+  Proof.
+    destruct e as [n|b|bs|x|a i|f args|n args|o a|o l r]; cbn [eval_body call_free]; intros H; try discriminate.
+    - apply RD3_ret.
+    - apply RD3_ret.
+    - destruct (pack_string bs); [apply RD3_ret|exact I].
+    - apply RD3_read_var.
+    - apply RD3_bind; [apply RD3_resolve_array|]. intros av s0 t0. apply RD3_bind; [apply Hev; exact H|]. intros iv s1 t1.
+      apply RD3_int_of. intros n. apply RD3_read_elem.
+    - destruct o.
+      + apply RD3_bind; [apply Hev; exact H|]. intros v s1 t1. apply RD3_int_of. intros n. destruct (in_int (0 - n)); [apply RD3_ret|exact I].
+      + apply RD3_bind; [apply Hev; exact H|]. intros v s1 t1. apply RD3_bool_of. intros b. apply RD3_ret.
+    - apply andb_true_iff in H. destruct H as [Hl Hr].
+      assert (Hops : RD3 (bind (operands evs [l; r] s) (fun vs s1 =>
+                 match vs with
+                 | [a; b] => int_of a (fun x => int_of b (fun y => match binop_ans o x y with inr z => Ret (Vint z) s1 | inl u => Fail u end))
+                 | _ => Fail (Unsupported "internal: operands")
+                 end)) s (bind (operands evs [l; r] t) (fun vs s1 =>
+                 match vs with
+                 | [a; b] => int_of a (fun x => int_of b (fun y => match binop_ans o x y with inr z => Ret (Vint z) s1 | inl u => Fail u end))
+                 | _ => Fail (Unsupported "internal: operands")
+                 end)) t).
+      { apply RD3_bind; [apply RD3_operands; cbn; rewrite Hl, Hr; reflexivity|]. intros vs s1 t1.
+        destruct vs as [|a [|b [|]]]; try exact I. apply RD3_int_of. intros x. apply RD3_int_of. intros y.
+        destruct (binop_ans o x y); [exact I|apply RD3_ret]. }
+      destruct o; try exact Hops.
+      + apply RD3_bind; [apply Hev; exact Hl|]. intros v s1 t1. apply RD3_bool_of. intros b. destruct b; [apply RD3_ret|].
+        apply RD3_bind; [apply Hev; exact Hr|]. intros w s2 t2. apply RD3_bool_of. intros c. apply RD3_ret.
+      + apply RD3_bind; [apply Hev; exact Hl|]. intros v s1 t1. apply RD3_bool_of. intros b. destruct b; [|apply RD3_ret].
+        apply RD3_bind; [apply Hev; exact Hr|]. intros w s2 t2. apply RD3_bool_of. intros c. apply RD3_ret.
+  Qed.
+End Bodies.
+
+Lemma rsound_all ge : forall f,
+  (forall e s t, call_free e = true -> RD3 (eval f ge e s) s (eval f ge e t) t) /\
+  (forall es s t, forallb call_free es = true -> RD3 (evals f ge es s) s (evals f ge es t) t).
+Proof.
+  induction f as [|f (H1 & H2)]; [split; intros; exact I|].
+  split; intros.
+  - apply (RD3_eval_body ge (eval f ge) (evals f ge) (exec f ge) H1 H2). assumption.
+  - apply (RD3_evals_body (eval f ge) (evals f ge) H1 H2 (proj1 (pure_all ge f))). assumption.
+Qed.
+
 Section Swap.
   Variables ge ge' : genv.
 
@@ -1712,7 +2158,7 @@ Section Swap.
     assert (SR : forall F', (f * 4 <= F')%nat -> forall rr, eval (S f2) ge r s0 = rr -> ok rr -> res_eq eq rr (eval F' ge' (T r') s0)).
     { intros F' HF' rr Hrr Horr. pose proof (lift_eval (S f2) f ge r s0 rr Hrr Horr ltac:(unfold f; lia)) as Hup.
       rewrite <- Hup. apply (HE F' E r r' s0 s0); try assumption; [apply st_eq_refl|rewrite Hup; exact Horr]. }
-    unfold swap_ok in Hsw. apply orb_true_iff in Hsw. destruct Hsw as [Hsw|Hcf]; [apply orb_true_iff in Hsw; destruct Hsw as [HA|HB]|].
+    unfold swap_ok in Hsw. apply orb_true_iff in Hsw. destruct Hsw as [Hsw|HD]; [apply orb_true_iff in Hsw; destruct Hsw as [Hsw|Hcf]; [apply orb_true_iff in Hsw; destruct Hsw as [HA|HB]|]|].
     - (* the left operand is a literal-like constant *)
       unfold lit_like in HA. destruct (const_of l') as [cl|] eqn:Ecl; [|discriminate]. fold (T l') in HA.
       destruct (const_eval ge E Hrng l l' cl Hl Ecl) as [Hcl CLl].
@@ -1794,6 +2240,57 @@ Section Swap.
       + rewrite Er0. rewrite <- (st_eq_start sl tl Hsltl). symmetry. exact El0.
       + eapply eff_eq_trans; [apply eff_union_assoc_swap|].
         apply eff_union_eq; [apply eff_union_eq; [exact Hcs|apply Hsrtr]|apply Hsltl].
+    - (* the right operand is call-free: its value and footprint are the same before and after the left operand *)
+      apply andb_true_iff in HD. destruct HD as [Hcr Hns].
+      assert (Hs00 : set_cur s0 eff0 = s0) by (unfold s0; apply same_set_cur).
+      assert (Hc0 : cur s0 = eff0) by (unfold s0; apply cur_set_cur).
+      pose proof (call_free_cp E r r' Hr Hcr) as Hcfr.
+      pose proof (proj1 (wsound_all ge f) l s0) as Wl.
+      destruct (eval f ge l s0) as [vl sl|c sl|u] eqn:El; [| |exfalso; exact Ho].
+      + destruct Wl as [Estk (K1 & K2 & K3 & K4)]. cbv zeta in *.
+        set (sA := set_cur (set_cur sl (eff_union (cur s) (cur sl))) eff0) in *.
+        assert (EsA : sA = set_cur sl eff0) by (unfold sA; apply same_set_cur).
+        pose proof (proj1 (pure_all ge (S f2)) r sA Hcfr) as PUr.
+        pose proof (proj1 (rsound_all ge (S f2)) r sA s0 Hcfr) as RDr.
+        destruct (eval (S f2) ge r sA) as [vr sr|c sr|u] eqn:Er; [|contradiction|exfalso; exact Ho].
+        destruct PUr as [Er0 Wr]. destruct RDr as (_ & _ & RDr).
+        rewrite conflicts2 in Ho. destruct (conflict (cur sl) (cur sr)) eqn:Ecf; [exfalso; exact Ho|].
+        assert (Hnw : forall x, mem_str x (e_rd (cur sr)) = true -> mem_str x (e_wr (cur sl)) = false).
+        { intros x Hx. destruct (mem_str x (e_wr (cur sl))) eqn:Ew; [|reflexivity]. exfalso.
+          unfold conflict in Ecf. apply orb_false_iff in Ecf. destruct Ecf as [Ecf _]. apply orb_false_iff in Ecf. destruct Ecf as [Ecf _].
+          apply orb_false_iff in Ecf. destruct Ecf as [Ecf _].
+          assert (Hi : inter_str (e_wr (cur sl)) (e_rd (cur sr)) = true) by (apply inter_spec; exists x; auto). congruence. }
+        destruct RDr as (sr0 & Er0' & Hcr0 & Ssr0).
+        { rewrite EsA. split; [|split; [|split]].
+          - unfold top. destruct sl, s0; cbn in *. rewrite Estk. reflexivity.
+          - destruct sl; cbn. exact K1.
+          - destruct sl; cbn. exact K2.
+          - intros x Hx. destruct (K3 x (Hnw x Hx)) as [G1 G2]. destruct sl; cbn in *. auto. }
+        { rewrite Hc0. unfold sA. rewrite cur_set_cur. reflexivity. }
+        pose proof (SR (S (S F3)) HF2 _ Er0' I) as Hrr.
+        destruct (eval (S (S F3)) ge' (T r') s0) as [vr' tr|c tr|u]; cbn in Hrr; try contradiction. destruct Hrr as [Hv Hsrtr]. subst vr'.
+        assert (E2 : set_cur (set_cur tr (eff_union (cur t) (cur tr))) eff0 = s0).
+        { rewrite same_set_cur. rewrite <- (st_eq_start sr0 tr Hsrtr). unfold sim0 in Ssr0. rewrite Ssr0. exact Hs00. }
+        rewrite E2.
+        pose proof (SL (S F3) HF3 I) as Hll.
+        destruct (eval (S F3) ge' (T l') s0) as [vl' tl|c tl|u]; cbn in Hll; try contradiction. destruct Hll as [Hv Hsltl]. subst vl'.
+        rewrite !conflicts2. rewrite Ecf.
+        rewrite (conflict_eq (cur tr) (cur sr) (cur tl) (cur sl)).
+        * rewrite (conflict_sym (cur sr) (cur sl)), Ecf. cbn. split; [exists vl, vr; auto|]. rewrite ?cur_set_cur.
+          apply st_eq_set_cur.
+          -- rewrite Er0. rewrite EsA, same_set_cur. apply st_eq_start. exact Hsltl.
+          -- eapply eff_eq_trans; [apply eff_union_assoc_swap|].
+             apply eff_union_eq; [apply eff_union_eq; [exact Hcs|]|apply Hsltl].
+             rewrite <- Hcr0. apply Hsrtr.
+        * apply eff_eq_sym. rewrite <- Hcr0. apply Hsrtr.
+        * apply eff_eq_sym. apply Hsltl.
+      + (* the left operand leaves the program: the source is defined only if the right one is a literal *)
+        destruct (harmless r) eqn:Eh; [|exfalso; exact Ho].
+        assert (Hlit : exists v, forall F x, eval (S F) ge' (T r') x = Ret v x).
+        { destruct r; try discriminate; cbn [cp_expr] in Hr; inversion Hr; subst r'; try discriminate; eexists; intros; reflexivity. }
+        destruct Hlit as [v Hlit]. rewrite Hlit. cbv zeta. rewrite ?cur_set_cur, ?same_set_cur, ?Hs00, ?Hc0.
+        pose proof (SL (S F3) HF3 I) as Hll.
+        destruct (eval (S F3) ge' (T l') s0) as [vl' tl|c' tl|u]; cbn in Hll; try contradiction. cbn [e_io eff0]. exact Hll.
   Qed.
 End Swap.
 
